@@ -1,7 +1,7 @@
 """C40  The REPL evaluates incremental input like a script and tracks *1 *2 *3 *e.
 
 (a) Every program of <= n top-level items over a 12-item alphabet (constant,
-    None, setv, arithmetic on a variable, list display, string literal,
+    None, setv, arithmetic on a variable (also yielding the falsy value 0), list display, string literal,
     print, quoted symbol, `#_ FORM`, comment, nested call, list with an inner
     comment), in EVERY line-break layout (each separator slot inside and
     between items is either "same line" or "line break"), is fed one line at a
@@ -353,7 +353,7 @@ class ReplSystem:
             if obs not in m.adm:
                 dup = (not exp["success"]) and before[0] is not None and obs[0] is before[0] and obs[1] is before[0]
                 if dup:
-                    problems.append(dict(kind="repl-failed-input-repeats-a-result", sig="b:stale-shift:%s" % R.FAILS[op], failure=R.FAILS[op], shape="*1=*2=previous *1",
+                    problems.append(dict(kind="repl-failed-input-repeats-a-result", sig="b:stale-shift", failure=R.FAILS[op], shape="*1=*2=previous *1",
                                          op=op, detail="before the failing input %r: (*1 *2 *3) = %r; after it: %r — *1 and *2 now both hold the result of one earlier input"
                                                        % (lines, tuple(before), obs)))
                 else:
